@@ -164,11 +164,10 @@ def _scenario_shard(arg):
         raise core.HarnessError('re-configuring does not change the saved configuration')
 
     touched = [True]
-    pre_contents = proj.contents(pr.bld) if not initial else None
 
     def target():
         """what the declared outputs must be: the uninterrupted run's; except that a re-configure
-        killed before it changed anything in the build directory has not changed the project
+        killed before it changed the saved configuration or a declared output has not changed the project
         (sources plus saved configuration) at all"""
         if scen != RECONFIGURE or touched[0]:
             return ref
@@ -187,7 +186,9 @@ def _scenario_shard(arg):
             raise core.HarnessError('crash point %d (%s %s) was not reached (status %s)'
                                     % (k, kind, path, st))
         stats['hit'] += 1
-        touched[0] = initial or proj.contents(pr.bld) != pre_contents
+        # "changed anything": the saved configuration or a declared output (caches are not part of
+        # the project's description)
+        touched[0] = initial or saved_env() != env_old or declared_outputs(pr.bld, backend) != old
         proj.snapshot(pr.root, crashed)
         for seq in seqs:
             proj.restore(crashed, pr.root)
